@@ -1,5 +1,6 @@
 import J5V.Props.C13
 #print axioms J5V.Props.C13.C13_append_field
+#print axioms J5V.Props.C13.C13_append_field_ctx
 #print axioms J5V.Props.C13.C13_append_field_nested
 #print axioms J5V.Props.C13.C13_append_field_numbers
 #print axioms J5V.Props.C13.C13_append_option
@@ -7,4 +8,6 @@ import J5V.Props.C13
 #print axioms J5V.Props.C13.C13_append_option_seq
 #print axioms J5V.Props.C13.C13_append_field_seq
 #print axioms J5V.Props.C13.C13_append_decl
+#print axioms J5V.Props.C13.C13_append_decl_pkg
+#print axioms J5V.Props.C13.C13_convert_congr
 #print axioms J5V.Props.C13.C13_addMessage_prefix
